@@ -93,7 +93,9 @@ def prove(module, timeout=900):
     import shutil
     d = tempfile.mkdtemp(prefix='verif-prove-')
     try:
-        shutil.copy(os.path.join(SPEC, module + '.tla'), d)
+        for fn in os.listdir(SPEC):           # the module and whatever it EXTENDS
+            if fn.endswith('.tla') and fn != 'TLAPS.tla':
+                shutil.copy(os.path.join(SPEC, fn), d)
         t0 = time.time()
         p = subprocess.run(['tlapm', module + '.tla'], cwd=d, stdout=subprocess.PIPE, stderr=subprocess.STDOUT,
                            text=True, timeout=timeout)
